@@ -139,6 +139,28 @@ SPECS = {
 }
 
 
+def _load_extra():
+    """per-property spec files harness/tiespecs/cXX.py (each defines SPEC = {'items', 'theorems', 'covers'}); when a property
+    has both, the items / theorems of the file are appended to the ones above (one generated Src<id>.lean, one Tie/<id>.lean)"""
+    import importlib.util
+    d = Path(__file__).resolve().parent / 'tiespecs'
+    for f in sorted(d.glob('c[0-9][0-9].py')) if d.is_dir() else []:
+        pid = f.stem.upper()
+        sp = importlib.util.spec_from_file_location(f'tiespecs_{f.stem}', f)
+        m = importlib.util.module_from_spec(sp)
+        sp.loader.exec_module(m)
+        extra = m.SPEC
+        if pid in SPECS:
+            base = SPECS[pid]
+            SPECS[pid] = {'items': base['items'] + extra['items'], 'theorems': base['theorems'] + extra['theorems'],
+                          'covers': base['covers'] + '; ' + extra['covers']}
+        else:
+            SPECS[pid] = extra
+
+
+_load_extra()
+
+
 def run(ctx):
     pid = ctx.pid
     spec = SPECS[pid]
@@ -157,3 +179,16 @@ def run(ctx):
     r['assumption'] = ('float expressions in the source (int(np.ceil(a / b)) ...) are read as exact rationals; '
                        'statements outside the integer skeleton are dropped (see harness/pyfn2lean.py)')
     return r
+
+
+if __name__ == '__main__':
+    # /venv/bin/python harness/ties.py Cxx   — regenerate Src<id>.lean from /repo (or $IBL_REPO), build Tie/<id>.lean, audit; prints the result
+    import json
+    import sys
+
+    class _C:
+        pass
+    F.setup_paths()
+    c = _C()
+    c.pid = sys.argv[1].upper()
+    print(json.dumps(run(c), indent=1, default=str))
